@@ -97,6 +97,11 @@ CHECKS["C16"] = ("exploration",
   "20,000 (200,000) sessions; sources come from the C01 sequence generator and the C02 database generator.",
   "Trusted: the counting medium (harness-side Read+Write+Seek wrapper).",
   "DESIGN.md section 4, C16")
+CHECKS["C09"] = ("exploration",
+  "structure-aware fuzzing with proptest: valid databases from the independent encoder + format-level corruption operators, raw bytes and byte edits; in-process battery (every read and mutating operation + flush) as oracle with panic capture by location, deterministic I/O-call budget and a counting allocator; thorough adds coverage-guided libFuzzer targets with the same battery and an FFI worker process",
+  "8,000 structured corruptions + 3,000 raw cases in the quick tier (200,000 / 100,000 in thorough); per-operator counts in the evidence. If the process itself dies, the check script replays the cases that were in flight one per process and reports the one that reproduces the death.",
+  "Trusted: panic hook + catch_unwind, the counting medium and allocator. The cfb dependency is built without its own debug assertions (they fire on malformed containers and abort through lock poisoning; they are the dependency's). A pure CPU loop would be a watchdog exit 2.",
+  "DESIGN.md section 4, C09")
 NOT_YET = {}
 
 def main():
